@@ -103,6 +103,58 @@ def rule_prologue_trailer(check):
             check.bad(R, "%s/prologue/%s" % (R, v[0] if v else g.name), hir.loc(n), "the prologue is inserted only if %s: a Modified file can come back without its prologue" % "; ".join(extra))
             continue
         check.expect(ok, R, "%s/prologue/%s" % (R, v[0] if v else g.name), hir.loc(n), "prologue statements are read (for insertion) under status == Modified", "the prologue statements are used in %s without a status == Modified guard" % g.name)
+    # ... and on that path every statement of the prologue is put into the body of the program,
+    # whichever kind of program it is (a Modified result always carries the prologue)
+    from ..prov import Prov as _Prov
+
+    _pv = _Prov(prog)
+    hosts = {g.def_path: g for g, _ in reads}
+    for g in hosts.values():
+        got = set()
+        for fg in prog.flat(g, 1):
+            for x in fg.nodes():
+                if x.get("k") != "MethodCall" or x["method"] not in ("insert", "splice", "extend", "push", "append", "extend_from_slice", "insert_many"):
+                    continue
+                pl = hir.place(x["recv"]) or ""
+                if not pl.endswith(".body"):
+                    continue
+                vals = x["args"][-1:] if x["args"] else []
+                def _is_prefix(r_, p_):
+                    if any("file_prefix_code" in str(q) for q in p_):
+                        return True
+                    if r_[0] == "param":
+                        hf = prog.by_def.get(r_[1])
+                        prm = hf.rec.get("params", []) if hf is not None else []
+                        return r_[2] < len(prm) and "Stmt" in (prm[r_[2]].get("ty") or "") and "[" in (prm[r_[2]].get("ty") or "")
+                    return False
+
+                subs = [y for v_ in vals for y in hir.walk(v_) if y.get("k") in ("Path", "Field", "MethodCall")]
+                from_prefix = any(_is_prefix(r_, p_) for y in subs for r_, p_ in _pv.origins(fg, y))
+                if not from_prefix:
+                    continue
+                vs = [str(hir.pat_variant(c_["pat"])).split("::")[-1] for c_ in fg.conds_at(x) if c_["t"] == "pat" and c_["v"] and "Program::" in str(hir.pat_variant(c_["pat"]))]
+                ty = hir.peel(x["recv"]).get("ty") or ""
+                kind = vs[0] if vs else ("Module" if "ModuleItem" in ty else "Script" if "Stmt" in ty else "?")
+                got.add(kind)
+        # ... or hands body and prologue to a crate helper that inserts into the body it is given
+        INS = ("insert", "splice", "extend", "push", "append", "extend_from_slice", "insert_many")
+        for x in g.nodes():
+            h = prog.resolve_local(x) if hir.is_call(x) else None
+            if h is None or h.body is None or h is g:
+                continue
+            a_ = hir.call_args(x)
+            body_arg = [i for i, y in enumerate(a_) if (hir.place(y) or "").endswith(".body")]
+            pre_arg = [i for i, y in enumerate(a_) if any(any("file_prefix_code" in str(q) for q in p_) for z in hir.walk(y) if z.get("k") in ("Path", "Field", "MethodCall") for r_, p_ in _pv.origins(g, z))]
+            if not body_arg or not pre_arg:
+                continue
+            bl = {b_["local"] for b_ in hir.pat_bindings(h.rec["params"][body_arg[0]]["pat"])} if body_arg[0] < len(h.rec.get("params", [])) else set()
+            inserts = [y for fh in prog.flat(h, 1) for y in fh.nodes() if y.get("k") == "MethodCall" and y["method"] in INS and (hir.local_of(y["recv"]) or (None,))[0] in bl]
+            if not inserts:
+                continue
+            vs = [str(hir.pat_variant(c_["pat"])).split("::")[-1] for c_ in g.conds_at(x) if c_["t"] == "pat" and c_["v"] and "Program::" in str(hir.pat_variant(c_["pat"]))]
+            ty = hir.peel(a_[body_arg[0]]).get("ty") or ""
+            got.add(vs[0] if vs else ("Module" if "ModuleItem" in ty else "Script" if "Stmt" in ty else "?"))
+        check.expect({"Script", "Module"} <= got, R, R + "/prologue-inserted", hir.loc(g.rec), "the prologue statements are inserted into the body of scripts and of modules", "the prologue statements are inserted for %s only: a Modified %s comes back without its prologue" % (sorted(got) or "no program kind", " / ".join(sorted({"Script", "Module"} - got))))
     pj = prog.fn("rewriter::print_js")
     fmts = [n for n in hir.walk(pj.body) if n.get("exp") and (n.get("macro") or "").endswith("format")]
     tr_nodes = [n for n in hir.walk(pj.body) if n.get("k") == "Lit" and n["lit"]["t"] == "str" and "application/json;base64" in str(n["lit"]["v"])]
